@@ -432,9 +432,7 @@ def finite(data):
 
 
 def max_rate(desc):
-    state = gen.state_of(desc)
-    _, mag = ref.rate_law(desc, state, None)
-    return max([m / (abs(s) + 1.0) for m, s in zip(mag, state)] + [1e-3])
+    return ref.max_rate(desc, gen.state_of(desc))       # (also the per-molecule rates of species that are absent at first)
 
 
 # ---------------------------------------------------------------------------
@@ -656,8 +654,13 @@ def run_case(case):
             except ValueError as e:
                 bad.append({"what": "shape: simulate(cgmap=identity) output is not nsamples x nspecies x cells", "error": err(e)})
             else:
+                flat_p = [x for k_ in dp for row in k_ for x in row]
                 if not (finite(dp) and finite(di)):
                     cnt["nonfinite_skipped"] += 1
+                elif min(flat_p) < 0 or max(abs(x) for x in flat_p) > 10.0 * (max(abs(x) for x in gen.state_of(desc)) + 1.0):
+                    # an unstable run (negative or exploding amounts) amplifies the rounding differences between the grid and the
+                    # graph engine without bound: nothing can be concluded from it
+                    cnt["identity_unstable_skipped"] = cnt.get("identity_unstable_skipped", 0) + 1
                 else:
                     cnt["identity_checks"] += 1
                     one = 1.0  # molecule: absolute scale of the dt bound (rates <= 0.02 (|x| + 1) / dt)
